@@ -23,7 +23,7 @@ CLAIMED = {
   "text": "With the input collection, environment-variable collections (including the cells between len and cap) and the expression tree protected, no operator node and no table function can reach a store into them; returned FHIR elements are the inputs' own nodes. FHIR primitive elements in every shape are protected while operators convert them; navigation over a protected Patient of symbolic shape writes nothing either. Contained-resource and Bundle unwrapping are outside the claim.",
   "design_ref": "DESIGN.md §4 C03", "note": BASE_NOTE},
  "C04": {"technique": T + " (read-only-sharing premises; clock as nondeterministic stub; table isolation over two-step histories)",
-  "text": "The premises of race-freedom and determinism are decided instead of schedules: no evaluation step writes to any package-level variable, to the expression tree or to its inputs; each Evaluate builds a fresh context and reads the clock once; now/today/timeOfDay are functions of that instant; function tables of successive Compile configurations are isolated for a symbolic function name. Actual interleavings and ANTLR's caches are outside the claim.",
+  "text": "The premises of race-freedom and determinism are decided instead of schedules: no evaluation step writes to any package-level variable, to the expression tree or to its inputs; each Evaluate builds a fresh context and reads the clock once; now/today/timeOfDay are functions of that instant; function tables of successive Compile configurations are isolated for a symbolic function name. Compile isolation is also decided at the public Compile, the recogniser executed on menu texts, for a history of calls with and without a function-registering option. Actual interleavings are outside the claim.",
   "design_ref": "DESIGN.md §4 C04", "note": BASE_NOTE},
  "C05": {"technique": T + " (differential vs reference comparison model; relational laws)",
   "text": "TryEqual / Less and Collection.TryEqual agree with a reference model on symbolic pairs and triples of every System type (Date/DateTime/Time at every precision pair inside a calendar window), are symmetric, at most one of < = > holds, < is transitive; collections are equal iff every pair is.",
@@ -67,7 +67,7 @@ CLAIMED = {
 }
 
 NOT_APPLICABLE = {
- "C11": "the deciding code is the ANTLR ATN interpreter over generated tables; a grammar model would not be the code (DESIGN.md §5)",
+ "C11": "the deciding code is the ANTLR recogniser (lexer DFA, ATN simulation over generated tables): the engine executes it, but only on concrete text, so a claim about every expression tree and rendering could only be enumerated run by run, which is not a solver verdict; a grammar model would not be the code (DESIGN.md §5, §9.6 round 8)",
  "C18": "every patch step is protoreflect traversal/mutation located by pointer identity; oracle is the JSON tree (DESIGN.md §5)",
  "C20": "reflection-built registry and protoreflect/protorange; the finite-schema quantifier is enumeration, not a solver question (DESIGN.md §5)",
 }
